@@ -38,6 +38,7 @@ MAP = [
     ("V:opt:build:", "optimiser_contract"),
     ("P:serde-plain:", "serde_roundtrip"),
     ("V:cli:", "cli_pipeline"),
+    ("V:state:as_svg_uses:", "svg_places"),
 ]
 
 
